@@ -2,7 +2,8 @@
    Threshold.v.  [fops F] are the operations of an arbitrary field F; [zq q] those of Z modulo q. *)
 From Coq Require Import ZArith Znumtheory.
 From mathcomp Require Import all_ssreflect all_algebra ssrZ.
-From V.C13 Require Import Model ModInv Proofs Bridge Threshold Group Select Compose Node.
+From V.Base Require Import PrimeBn256Order.
+From V.C13 Require Import Model ModInv Proofs Bridge Threshold Group Select Compose Node Robust.
 Import GRing.Theory.
 Local Open Scope ring_scope.
 Delimit Scope Z_scope with ZZ.
@@ -184,6 +185,29 @@ Theorem C13_zr_dkg : Znumtheory.prime curve_order ->
 Proof. move=> pr k dealers ids sel h; exact: dkg_recover_Zq. Qed.
 Print Assumptions C13_zr_dkg.
 
+(* The curve order IS prime (Base/PrimeBn256Order.v: Pocklington certificate checked by Coq, no axiom):
+   the two transfers without the primality hypothesis. *)
+Theorem C13_curve_order_prime : Znumtheory.prime curve_order.
+Proof. exact: bn256_order_prime. Qed.
+
+Theorem C13_zr_lagrange_unconditional :
+  forall (cs xs : seq Z),
+  uniq (residues curve_order xs) -> (size cs <= size xs)%N ->
+  recover_z curve_order xs (map (share_seckey curve_order cs) xs) = (nth 0 cs 0 mod curve_order)%ZZ.
+Proof. exact: (C13_zr_lagrange C13_curve_order_prime). Qed.
+Print Assumptions C13_zr_lagrange_unconditional.
+
+Theorem C13_zr_dkg_unconditional :
+  forall (k : nat) (dealers : seq (seq Z)) (ids : seq Z) (sel : seq nat) (h : Z),
+  all (fun cs => size cs <= k)%N dealers ->
+  uniq (residues curve_order ids) -> uniq sel -> all (fun i => i < size ids)%N sel -> (k <= size sel)%N ->
+  (recover_sel (zq curve_order) sel ids
+     (map (fun z => (member_key (zq curve_order) dealers z * h) mod curve_order)%ZZ ids)
+     mod curve_order)%ZZ
+  = ((group_secret (zq curve_order) dealers * h) mod curve_order)%ZZ.
+Proof. exact: (C13_zr_dkg C13_curve_order_prime). Qed.
+Print Assumptions C13_zr_dkg_unconditional.
+
 (* GetGroupK(n) is ceil(51 n / 100), lies in 1..n and is a strict majority; the float64 computation
    the code performs gives the same integer for every n up to 2000 (the node's maximum is 10). *)
 Theorem C13_threshold : forall n : Z, (1 <= n)%ZZ ->
@@ -198,6 +222,57 @@ Print Assumptions C13_threshold.
 Theorem C13_threshold_float : forall n : Z, (0 <= n <= 2000)%ZZ -> group_k_float n = group_k n.
 Proof. exact: group_k_float_ok. Qed.
 Print Assumptions C13_threshold_float.
+
+(* The float64 path of GetGroupK equals the integer ceiling for EVERY n with 51 n < 2^52 (general
+   argument: the scaling exponent is at least 7, a non-integral 51n/100 is at least 1/100 from every
+   integer) - no finite sweep. *)
+Theorem C13_threshold_float_general : forall n : Z,
+  (0 <= n)%ZZ -> (51 * n < 2 ^ 52)%ZZ -> group_k_float n = group_k n.
+Proof. exact: group_k_float_general. Qed.
+Print Assumptions C13_threshold_float_general.
+
+(* ---- outside the guards (ids pairwise distinct modulo r, k <= collected shares) ----
+   Two members whose ids are congruent modulo q both get the Lagrange coefficient 0 (the code ignores
+   the nil result of ModInverse): their shares do not influence the result ... *)
+Theorem C13_congruent_ids_zero_coefficient : forall (q : Z) (xs : list Z) (i j : nat),
+  (1 < q)%ZZ -> (i < List.length xs)%coq_nat -> (j < List.length xs)%coq_nat -> i <> j ->
+  (List.nth i xs 0 mod q = List.nth j xs 0 mod q)%ZZ ->
+  delta (zq q) xs i = 0%ZZ /\ delta (zq q) xs j = 0%ZZ.
+Proof. exact: delta_congruent_zero. Qed.
+Print Assumptions C13_congruent_ids_zero_coefficient.
+
+Theorem C13_congruent_ids_share_ignored : forall (q : Z) (xs ys : list Z) (i j : nat) (y' : Z),
+  (1 < q)%ZZ -> (i < List.length xs)%coq_nat -> (j < List.length xs)%coq_nat -> i <> j ->
+  (List.nth i xs 0 mod q = List.nth j xs 0 mod q)%ZZ ->
+  recover (zq q) xs (upd ys i y') = recover (zq q) xs ys.
+Proof. exact: recover_ignores_congruent. Qed.
+Print Assumptions C13_congruent_ids_share_ignored.
+
+(* ... and the recovered value is wrong: over the real curve order, ids 1, 1+r, 2 (distinct 256-bit
+   integers) and the polynomial 5 + 7x + 11x^2 recover p(2) = 63, not p(0) = 5.  This is why the
+   headline theorems carry the hypothesis "ids distinct modulo r". *)
+Theorem C13_congruent_ids_refuted :
+  exists (cs xs : list Z),
+    List.NoDup xs /\ List.Forall (fun x => 0 < x < 2 ^ 256)%ZZ xs /\
+    (List.length cs <= List.length xs)%coq_nat /\
+    recover_z curve_order xs (List.map (share_seckey curve_order cs) xs)
+      <> (List.nth 0 cs 0 mod curve_order)%ZZ.
+Proof.
+exists [:: 5; 7; 11]%ZZ, [:: 1; 1 + curve_order; 2]%ZZ.
+have [nd [fa [le [-> ne]]]] := congruent_ids_wrong_value.
+by split; [|split; [|split]].
+Qed.
+Print Assumptions C13_congruent_ids_refuted.
+
+(* The collector reaches the recovery only with at least threshold-many collected shares (k <= n at the
+   only call sites of RecoverGroupSignature): the nil-signature slots of a too short map are not
+   reachable through GroupSignGenerator. *)
+Theorem C13_collector_guard :
+  forall (T : Type) (o : ops T) (ideq : T -> T -> bool) (sel : list nat) (g : @gen T) (id s v : T),
+  g_sig g = None -> g_sig (gen_add o ideq sel g id s).1.1 = Some v ->
+  (g_thr g <= List.length (g_map (gen_add o ideq sel g id s).1.1))%coq_nat.
+Proof. move=> T o ideq sel g id s v; exact: gen_add_recovers_only_with_enough. Qed.
+Print Assumptions C13_collector_guard.
 
 (* Non-vacuity: (a) the hypotheses of the Z-mod-q theorems are satisfiable (q = 3, ids 1,2, dealer
    polynomials 2+x and 1+2x); (b) a run over the real curve order: n = 5, k = 3, two dealers, two
